@@ -1747,6 +1747,11 @@ fn strace_crosscheck(ctx: &Ctx) {
         if !inside || !rest.contains("vh-c06-probe-") {
             continue;
         }
+        // the second half of a call that strace split into "name(args <unfinished ...>" and "<... name resumed>) = ret"
+        // (another thread's call came in between): the first half carries the name and the arguments and was counted
+        if rest.starts_with("<... ") {
+            continue;
+        }
         let Some(name) = rest.split('(').next() else { continue };
         // failed calls are counted on both sides (the interposer counts a call before forwarding it)
         let class = match name {
